@@ -338,7 +338,18 @@ def classify(chk: Check, job: dict, idx, inp, real_res, model_res, real_store, m
 
 
 def run(args) -> int:
+    from vlib import ProbeError
     chk = Check(PID, args.tier, args.seed)
+    try:
+        return _run(chk, args)
+    except ProbeError as e:
+        # the implementation cannot even be imported / driven: a behavioural regression, not a tooling fault
+        chk.violation('implementation-unusable', 'the probe running the real parser/writer crashed: ' + str(e)[-400:].replace('\n', ' | '),
+                      dict(kind='probe', detail=str(e)[-3000:]), found_input=False)
+        return chk.finish()
+
+
+def _run(chk, args) -> int:
     thorough = args.tier == 'thorough'
     chk.rule = ('model outcome (sentence serialised structurally, or exception type) and predicate store after the '
                 'parse must equal the implementation\'s; distinct = distinct (notation, store, input) with a '
@@ -377,6 +388,10 @@ def run(args) -> int:
             jobs.append(dict(notation=notn, preds=st['preds'], auto=st['auto'], mode='fresh',
                              inputs=[s for _, s in gen[i:i + CH]], cats=[c for c, _ in gen[i:i + CH]]))
         compare_fresh(chk, jobs, f'Rnd_{notn}_', 'random', shard=1)
+        # ---- whitespace insensitivity: parse(i) = parse(i without whitespace characters)
+        ws = {chr(c[0]) for c, k, v in tb['parse'][notn] if k == 'whitespace' and len(c) == 1}
+        wsi = [s for _, s in gen if any(ch in ws for ch in s)][:4000 if thorough else 600]
+        whitespace_cases(chk, notn, wsi, ws)
         # ---- histories on one instance
         hs = gen_histories(rng, notn, ref, 3000 if thorough else 300)
         compare_histories(chk, hs, f'Hist_{notn}_')
@@ -418,6 +433,30 @@ def compare_fresh(chk: Check, jobs: list[dict], name: str, category: str, shard=
             sub = dict(job, inputs=[inp])
             sub.pop('cats', None)
             classify(chk, sub, None, inp, r_res, m_res, r_store, m_store, cat)
+
+
+def whitespace_cases(chk: Check, notn: str, inputs: list[str], ws: set):
+    if not inputs:
+        return
+    pairs = []
+    for i in inputs:
+        pairs += [i, ''.join(ch for ch in i if ch not in ws)]
+    jobs = [dict(notation=notn, preds=[], auto=True, mode='fresh', inputs=pairs[k:k + 600]) for k in range(0, len(pairs), 600)]
+    real, model = run_both(jobs, f'Ws_{notn}_', shard=1)
+    for job, rr, mm in zip(jobs, real, model):
+        ins = job['inputs']
+        for k in range(0, len(ins), 2):
+            chk.case(['ws', notn, ins[k]], nontrivial=True)
+            chk.count('whitespace_pairs', notn)
+            a = (rr['results'][k], rr['stores'][k])
+            b = (rr['results'][k + 1], rr['stores'][k + 1])
+            if a != b:
+                chk.violation(f'{notn}:whitespace-sensitive', f'{notn} parser: {ins[k]!r} -> {a[0][:100]!r} but without '
+                              f'whitespace {ins[k + 1]!r} -> {b[0][:100]!r}',
+                              dict(kind='parse', job=dict(job, inputs=[ins[k]]), index=None, expect_model=b[0], observed=a[0]))
+            for q in (k, k + 1):
+                m_res, _, m_store = mm[q].partition(' # ')
+                classify(chk, dict(job, inputs=[ins[q]]), None, ins[q], rr['results'][q], m_res, rr['stores'][q], m_store, 'whitespace')
 
 
 def compare_histories(chk: Check, hs: list[dict], name: str):
